@@ -809,6 +809,7 @@ func runC10(c *Ctx) {
 	}
 	c.frameRules()
 	runC10Slices(c)
+	runC10ALU(c)
 	// ---- jumps / gas -------------------------------------------------------------------------------------------
 	for _, name := range []string{"opJump", "opJumpi"} {
 		if fn := c.Fn("kvm", "", name); fn != nil {
